@@ -18,6 +18,7 @@ import (
 	gatewayv1alpha2 "sigs.k8s.io/gateway-api/apis/v1alpha2"
 	gatewayv1beta1 "sigs.k8s.io/gateway-api/apis/v1beta1"
 
+	"github.com/jcmoraisjr/haproxy-ingress/pkg/acme"
 	ctrlconfig "github.com/jcmoraisjr/haproxy-ingress/pkg/controller/config"
 	"github.com/jcmoraisjr/haproxy-ingress/pkg/controller/reconciler"
 	"github.com/jcmoraisjr/haproxy-ingress/pkg/controller/services"
@@ -245,4 +246,12 @@ func (r *Run) FreshSync(prefix string) (string, error) {
 		}
 	}
 	return prefix, nil
+}
+
+// resetSimHooks clears every package-level seam the injected export files declare.
+func resetSimHooks() {
+	reconciler.SimReconcileHook = nil
+	reconciler.SimBatchTakenHook = nil
+	services.SimReset()
+	acme.SimClientFactory = nil
 }
